@@ -136,7 +136,7 @@ def check(pid, tier="quick", seed=0, jobs=None, only=None, verbose=False):
             n_dis += 1
     refuted_quals = set(n["qual"] for n in refuted)
     for n in vacuous:
-        if n["qual"] in refuted_quals and n["label"] == "some-path-terminates":
+        if n["qual"] in refuted_quals and (n["label"] == "some-path-terminates" or n["label"].startswith("hook-reached:")):
             continue            # the path died under a refuted obligation, reported below
         exit_code = max(exit_code, 3)
         lines.append("CHECKER-ERROR vacuous contract: %s" % n["name"])
